@@ -825,6 +825,16 @@ fn main() {
                     th_chaos_managed(&args, &mut rep, prop, sc(250.0, 6000.0), true);
                 }
             }
+            // "a waiting get() is completed as soon as capacity is free, never panics, never deadlocks" is
+            // promised of the unmanaged pool's get() as well
+            if prop == "C02" {
+                if args.engine_enabled("utl") {
+                    utl_random(&args, &mut rep, prop, sc(10_000.0, 300_000.0));
+                }
+                if args.engine_enabled("uth_race") {
+                    th_race(&args, &mut rep, prop, sc(200.0, 6000.0), true, false);
+                }
+            }
             // status() of the unmanaged pool is the same `Status` and the same promise
             if prop == "C11" && args.engine_enabled("utl") {
                 utl_random(&args, &mut rep, prop, sc(10_000.0, 300_000.0));
